@@ -1081,13 +1081,13 @@ impl<'a, 'b> G<'a, 'b> {
             self.callback_body(&p, proj, t, depth);
             self.env.truncate(mark);
             self.out.push_str(" }, value: ");
-            self.expr(&a, 0);
+            self.known_arg(&a, 0, false);
             self.out.push(')');
             self.record(&p, off, a, "lambda parameter");
             return;
         }
         self.out.push_str(if form == 1 { "apply_l(" } else { "apply(" });
-        self.expr(&a, 0);
+        self.known_arg(&a, 0, false);
         self.out.push_str(if form == 1 { ", with: fn(" } else { ", fn(" });
         let off = self.out.len();
         self.out.push_str(&p);
@@ -1121,7 +1121,7 @@ impl<'a, 'b> G<'a, 'b> {
             let off = self.out.len();
             self.out.push_str(&q);
             self.out.push_str(" <- apply(#(");
-            self.expr(t, 0);
+            self.known_arg(t, 0, false);
             self.out.push_str(&format!(", {}))\n{}.0\n}}", q, q));
             let mark = self.env.len();
             self.env.push((q.clone(), a.clone()));
@@ -1137,7 +1137,7 @@ impl<'a, 'b> G<'a, 'b> {
         let off = self.out.len();
         self.out.push_str(&p);
         self.out.push_str(" <- apply(");
-        self.expr(&a, 0);
+        self.known_arg(&a, 0, false);
         self.out.push_str(")\n");
         let mark = self.env.len();
         self.env.push((p.clone(), a.clone()));
@@ -1160,6 +1160,18 @@ impl<'a, 'b> G<'a, 'b> {
         } else {
             (self.gen_type(1), None)
         }
+    }
+
+    /// the argument that fixes a callback parameter's type: built without locals whose own type
+    /// Gleam does not know at that point (else the parameter would not be known either)
+    fn known_arg(&mut self, a: &T, depth: usize, operand: bool) {
+        self.need_known += 1;
+        if operand {
+            self.expr_operand(a, depth);
+        } else {
+            self.expr(a, depth);
+        }
+        self.need_known -= 1;
     }
 
     fn callback_body(&mut self, p: &str, proj: Option<usize>, t: &T, depth: usize) {
@@ -1208,7 +1220,7 @@ impl<'a, 'b> G<'a, 'b> {
             self.tag("pipe into a call with a function literal");
             let (a, proj) = self.callback_arg_type(t);
             let p = self.fresh("p");
-            self.expr_operand(&a, depth);
+            self.known_arg(&a, depth, true);
             self.out.push_str(" |> apply(fn(");
             let off = self.out.len();
             self.out.push_str(&p);
